@@ -134,7 +134,7 @@ namespace GeographicLib {
       // Here we do a more careful job using the band letter corresponding to
       // the actual latitude.
       ys /= tile_;
-      if (fabs(ys) < 1)
+      if (!(fabs(ys) >= 1))     // including ys = NaN, so that lat = NaN
         lat = real(0.9) * ys;         // accurate enough estimate near equator
       else {
         real
